@@ -120,6 +120,14 @@ def harness_build(profile='release'):
         raise BuildError('harness (or /repo) does not compile', out[-6000:])
     return os.path.join(HARNESS, 'target', profile if profile == 'release' else 'debug', 'tung-harness')
 
+def harness_build_nohook():
+    """the same harness built WITHOUT --cfg tungstenite_verif (real rand::random masks), separate target dir"""
+    env = dict(ENV, RUSTFLAGS='--cfg tungstenite_verif_off', CARGO_TARGET_DIR=os.path.join(HARNESS, 'target-nohook'))
+    rc, out = sh('cargo build --offline --release', cwd=HARNESS, timeout=1800, env=env)
+    if rc != 0:
+        raise BuildError('harness (hook off) does not compile', out[-6000:])
+    return os.path.join(HARNESS, 'target-nohook', 'release', 'tung-harness')
+
 def ensure_all(profile='release'):
     with lock():
         coq_build()
